@@ -15,7 +15,8 @@ CONSTANTS Dev,
 (* ---- argument atoms (abstract texts; the harness holds the concrete text) ---- *)
 Atoms == {"EMPTY", "BLANK", "WORD", "NEG", "ZERO", "ONE", "SEVEN", "HUGE", "FRAC",
           "PLUS", "STAR", "LPAR", "EXPEMPTY", "TALK", "DOTS", "EPOCH", "BADDATE",
-          "LT", "KV", "HASH", "UP", "PCT", "E"}
+          "LT", "KV", "HASH", "UP", "PCT", "E",
+          "SUP", "ARDIG"}      \* "²" (isdigit but not a decimal numeral) and an Arabic-Indic digit
 ExprValue == {"NEG", "ZERO", "ONE", "SEVEN", "HUGE", "FRAC", "E"}   \* texts that are a well-formed #expr
 \* page titles the call is expanded on
 Titles == {"plain", "talk", "nstalk", "user"}
